@@ -4,7 +4,7 @@ import os, sys, json, subprocess, shutil, tempfile, atexit, time, glob, hashlib,
 VERIF = os.path.dirname(os.path.dirname(os.path.abspath(__file__)))
 REPO = os.environ.get("VERIF_REPO", "/repo")
 VERUS_TOOLCHAIN = "1.98.1-x86_64-unknown-linux-gnu"
-CACHE = os.path.join(VERIF, ".cache")
+CACHE = os.environ.get("VERIF_CACHE") or os.path.join(VERIF, ".cache")
 
 class ToolError(Exception):
     """undecided: tooling problem, exit 2"""
